@@ -39,6 +39,9 @@ def truthy(a):
 def binary(opname, a, b, int_result):
     """Result term of a scalar binary opcode, or None where the property leaves the value unconstrained."""
     x, y, real = _lift(a, b)
+    if not int_result and not real and opname == "DIV":
+        # a float-typed division of two whole numbers the VM holds as Python ints (zero-initialised float locals, `float x = 7;`)
+        x, y, real = z3.ToReal(x), z3.ToReal(y), True
     if opname == "ADD":
         return x + y
     if opname == "SUB":
